@@ -19,6 +19,18 @@ TARGET_FUNCTIONS = ('build', 'clear', '__call__', '_create_caches', 'text_decode
                     'get_element', 'build_builtins')
 
 
+# functions that touch state shared between threads: when a run enables line-level pre-emption, every LINE of
+# these is a yield point (windows that contain no function call become reachable)
+LINE_FUNCTIONS = {
+    ('xsd_globals.py', 'build'), ('xsd_globals.py', 'clear'), ('caching.py', '__call__'), ('caching.py', '_create_caches'),
+    ('caching.py', '__get__'), ('simple_types.py', 'text_decode'), ('simple_types.py', 'text_is_valid'),
+    ('identities.py', 'update_elements'), ('xml_loader.py', '_lazy_iterparse'), ('selectors.py', 'cached_selector'),
+    ('facets.py', '__call__'), ('assertions.py', '__call__'), ('schemas.py', 'validation_context'),
+    ('attributes.py', 'raw_decode'), ('sax.py', 'defuse_xml'), ('xsd_globals.py', 'get_instance_type'),
+    ('validation.py', 'clear'),
+}
+
+
 class Deadlock(Exception):
     pass
 
@@ -132,6 +144,8 @@ class Scheduler:
         self.target_set = set()
         self.finished_order = []
         self.notes = []
+        self.line_level = line_level
+        self.line_frames = 0
 
     # ---- bookkeeping -------------------------------------------------------
     def probe(self, name):
@@ -162,7 +176,15 @@ class Scheduler:
         if not code.co_filename.startswith(self.prefixes):
             return None
         self.yield_point(code)
+        if self.line_level and (os.path.basename(code.co_filename), code.co_name) in LINE_FUNCTIONS:
+            self.line_frames += 1
+            return self._trace_lines
         return None
+
+    def _trace_lines(self, frame, event, arg):
+        if event == 'line':
+            self.yield_point(frame.f_code)
+        return self._trace_lines
 
     def yield_point(self, code=None):
         me = self.current
